@@ -560,21 +560,24 @@ def rule_R4(ctx, repo, flow, sk_classes):
     fn = base.methods.get("check_is_fitted")
     if fn is None:
         raise AnalysisError("anchor missing: BaseEstimator.check_is_fitted")
-    g = CFG(fn)
+    from ..boolx import Atomizer as _At, PathConditions as _PC, equivalent as _equiv, atom as _atom, neg as _neg, disj as _disj, FALSE as _F
+    pcg = _PC(fn, _At())
+    nf_cond = _F
+    other = False
+    for st_, cond_ in pcg.raise_sites:
+        exc = st_.exc
+        nm = dotted(exc.func) if isinstance(exc, ast.Call) else dotted(exc)
+        if nm is not None and nm.split(".")[-1] == "NotFittedError":
+            nf_cond = _disj(nf_cond, cond_)
+        else:
+            other = True
     good = False
-    for n in g.nodes:
-        if n.kind == "test" and isinstance(n.stmt, ast.If):
-            t = n.stmt.test
-            neg = isinstance(t, ast.UnaryOp) and isinstance(t.op, ast.Not)
-            operand = t.operand if neg else None
-            reads = operand is not None and (astq.is_self_attr(operand, attr="is_fitted") or astq.is_self_attr(operand, attr="_is_fitted"))
-            raises = [s for s in n.stmt.body if isinstance(s, ast.Raise)]
-            if reads and raises:
-                exc = raises[0].exc
-                nm = dotted(exc.func) if isinstance(exc, ast.Call) else dotted(exc)
-                good = nm is not None and nm.split(".")[-1] == "NotFittedError"
+    if not other:
+        for a_ in ("self.is_fitted", "self._is_fitted"):
+            r_, _w = _equiv(nf_cond, _neg(_atom(a_)))
+            good = good or bool(r_)
     ctx.check(good, "R4", base.qual + ".check_is_fitted", "raises NotFittedError iff not self.is_fitted",
-              "BaseEstimator.check_is_fitted does not raise NotFittedError when the estimator is not fitted", ctx.loc(base.module, fn))
+              "BaseEstimator.check_is_fitted does not raise NotFittedError exactly when the estimator is not fitted", ctx.loc(base.module, fn))
     prop = base.properties.get("is_fitted", {}).get("getter")
     good = prop is not None and len(astq.returns(prop)) == 1 and astq.is_self_attr(astq.returns(prop)[0].value, attr="_is_fitted")
     ctx.check(good, "R4", base.qual + ".is_fitted", "is_fitted returns self._is_fitted",
